@@ -54,7 +54,7 @@ def _child(q: Query, conn):
         os._exit(0)
 
 
-def run_queries(queries: list[Query], workers: int | None = None, hard_factor: float = 1.5, progress=None):
+def run_queries(queries: list[Query], workers: int | None = None, hard_factor: float = 1.5, progress=None, _retry: bool = True):
     """-> list[QueryResult] in the order of ``queries``."""
     workers = workers or int(os.environ.get("SYMX_WORKERS", "0")) or min(16, os.cpu_count() or 4)
     ctx = mp.get_context("fork")
@@ -113,6 +113,14 @@ def run_queries(queries: list[Query], workers: int | None = None, hard_factor: f
         if not done:
             time.sleep(0.02)
     out = [results[i] for i in range(len(queries))]
+    # a worker that vanished (killed by the OS, a crash inside the solver library) says nothing about the query:
+    # run such queries once more before reporting a harness error
+    if _retry:
+        again = [i for i, r in enumerate(out) if r.error and r.error.startswith(("worker exited", "worker died"))]
+        if again:
+            rr = run_queries([queries[i] for i in again], workers=workers, hard_factor=hard_factor, progress=None, _retry=False)
+            for i, r in zip(again, rr):
+                out[i] = r
     # second phase: sub-trees of split queries
     subs, owner = [], []
     for i, (q, r) in enumerate(zip(queries, out)):
